@@ -532,6 +532,10 @@ def _ancestors(mod: Any, n: ast.AST, stop: ast.AST) -> List[ast.AST]:
     return out
 
 
+def x_names(e: ast.AST) -> List[ast.Name]:
+    return [n for n in ast.walk(e) if isinstance(n, ast.Name)]
+
+
 def run(ctx: Any, prog: Program) -> None:
     dmx = prog.module('dmx')
     fold = Folder(prog, dmx)
@@ -632,8 +636,21 @@ def run(ctx: Any, prog: Program) -> None:
         r, w_ = table(pb, v), table(eb, v)
         ctx.check('C14.X2', r == w_, dmx, eb, f'binary version {v}: reader uses string-table formats {r}, writer {w_}', func='Element.export_binary', text=f'string table formats v{v}')
     for fn, nm in ((pb, 'parse_bin'), (eb, 'export_binary')):
-        gate = [n for n in ast.walk(fn) if isinstance(n, ast.If) and 'ValueType.TIME' in U(n.test) and 'version < 3' in U(n.test) and any(isinstance(s, ast.Raise) for s in n.body)]
-        ctx.shape('C14.X2', len(gate) == 1, dmx, gate[0] if gate else fn, f'{nm} must reject TIME attributes before binary version 3', func=f'Element.{nm}', text='TIME rejected before v3')
+        gate = [n for n in ast.walk(fn) if isinstance(n, ast.If) and any(isinstance(x, ast.Attribute) and x.attr == 'TIME' for x in ast.walk(n.test)) and any(isinstance(s, ast.Raise) for s in n.body)
+                and any(isinstance(c, ast.Compare) and isinstance(c.left, ast.Name) and len(c.ops) == 1 and isinstance(c.comparators[0], ast.Constant) and isinstance(c.comparators[0].value, int) for c in ast.walk(n.test))]
+        if len(gate) != 1:
+            ctx.shape('C14.X2', False, dmx, gate[0] if gate else fn, f'{nm} must reject TIME attributes before binary version 3', func=f'Element.{nm}', text='TIME rejected before v3')
+            continue
+        # which versions are refused: the version comparison of the gate, decided for every version
+        cmp_ = next(c for c in ast.walk(gate[0].test) if isinstance(c, ast.Compare) and isinstance(c.left, ast.Name) and len(c.ops) == 1 and isinstance(c.comparators[0], ast.Constant) and isinstance(c.comparators[0].value, int))
+        k_ = cmp_.comparators[0].value
+        opf = {ast.Lt: lambda a, b: a < b, ast.LtE: lambda a, b: a <= b, ast.Gt: lambda a, b: a > b, ast.GtE: lambda a, b: a >= b, ast.Eq: lambda a, b: a == b, ast.NotEq: lambda a, b: a != b}.get(type(cmp_.ops[0]))
+        if opf is None:
+            ctx.shape('C14.X2', False, dmx, gate[0], f'version comparison `{U(cmp_)}` of the TIME gate not evaluable', func=f'Element.{nm}', text='TIME rejected before v3')
+            continue
+        refused = [v for v in range(1, 6) if opf(v, k_)]
+        ctx.check('C14.X2', refused == [1, 2], dmx, gate[0], f'{nm} refuses TIME attributes for binary versions {refused} (`{U(cmp_)}`): the type exists from version 3 on, so exactly versions 1 and 2 must be refused - '
+                  'a TIME value in a version-3 file is valid on the other side', func=f'Element.{nm}', text='TIME rejected before v3')
     # ---- X3 ------------------------------------------------------------------------------------------------
     for v in range(1, 6):
         for m in members:
@@ -942,6 +959,26 @@ def run(ctx: Any, prog: Program) -> None:
                       f'{"as the blank id" if WANT[kname] == "blank" else ("by its id" if WANT[kname] == "id" else "inline")}' + (' (a NULL written by id comes back as a stub with the all-zero id, not as NULL)' if kname == 'NULL' else ''),
                       func='Element._export_kv2', text=f'{pos}: {kname}')
 
+    # ---- X12: a reference read from KeyValues2 holds a stub until it is resolved ---------------------------------------------------------------
+    # the fix-up pass of parse_kv2 replaces a reference only when the id is defined in the file; a dangling id has to stay a stub *with that
+    # id*.  So wherever the element parser queues a fix-up (`fixups.append((.., uuid, ..))`) the same block also stores
+    # `StubElement.stub(uuid)` (directly or through `stubs.setdefault(uuid, ...)`) - in the array position and in the scalar position alike.
+    ctx.rule('C14.X12', 'KV2 reader: every queued reference is given a stub carrying its id, in array and scalar position', floor=2)
+    pk = dmx.func('Element._parse_kv2_element')
+    for c in [x for x in ast.walk(pk) if isinstance(x, ast.Call) and isinstance(x.func, ast.Attribute) and x.func.attr == 'append' and isinstance(x.func.value, ast.Name) and x.func.value.id in [a.arg for a in pk.args.args]
+              and x.args and isinstance(x.args[0], ast.Tuple)]:
+        names_ = {e.id for e in x_names(c.args[0])}
+        st_ = dmx.parents.get(c)
+        while st_ is not None and not isinstance(st_, ast.stmt):
+            st_ = dmx.parents.get(st_)
+        holder = dmx.parents.get(st_)
+        blk = next((getattr(holder, f_) for f_ in ('body', 'orelse', 'finalbody') if isinstance(getattr(holder, f_, None), list) and st_ in getattr(holder, f_)), [])
+        stubbed = [y for b in blk for y in ast.walk(b) if isinstance(y, ast.Call) and (dotted(y.func) or '').endswith('StubElement.stub') and y.args and isinstance(y.args[0], ast.Name) and y.args[0].id in names_]
+        stored = [b for b in blk if any(y in list(ast.walk(b)) for y in stubbed) and (isinstance(b, (ast.Assign, ast.AugAssign)) or (isinstance(b, ast.Expr) and isinstance(b.value, ast.Call) and isinstance(b.value.func, ast.Attribute)
+                                                                                                                                 and b.value.func.attr in ('append', 'insert', 'extend')))]
+        ctx.check('C14.X12', bool(stored), dmx, c, f'_parse_kv2_element queues the reference `{U(c.args[0])[:50]}` for the fix-up pass but stores no `StubElement.stub(<id>)` for it: an id that is not defined in the file is never '
+                  'filled in, so the attribute silently stays NULL and the id is lost', func='Element._parse_kv2_element', text=f'queued reference at `{U(c)[:40]}` holds a stub')
+
     # ---- X6 ------------------------------------------------------------------------------------------------
     n6 = 0
     for fname in ('parse_bin', 'parse_kv2', '_parse_kv2_element'):
@@ -1054,6 +1091,9 @@ def run(ctx: Any, prog: Program) -> None:
 
 
 MUTANTS: List[Dict[str, Any]] = [
+    {'id': 'kv2_scalar_reference_without_stub', 'file': 'dmx.py', 'find': "                    attr.val_elem = stubs.setdefault(uuid, StubElement.stub(uuid))\n", 'replace': "", 'expect': 'C14.X12'},
+    {'id': 'time_refused_at_v3', 'file': 'dmx.py', 'find': "                if attr.type is ValueType.TIME and version < 3:", 'replace': "                if attr.type is ValueType.TIME and version <= 3:", 'expect': 'C14.X2'},
+    {'id': 'ok_time_gate_le_2', 'file': 'dmx.py', 'find': "                if attr.type is ValueType.TIME and version < 3:", 'replace': "                if attr.type is ValueType.TIME and version <= 2:", 'expect': None},
     {'id': 'kv2_array_null_by_id', 'file': 'dmx.py', 'find': "                        if child.is_null:\n                            file.write(b'\"element\" \"\"')\n                        elif child.uuid in roots or child.is_stub:", 'replace': "                        if child.uuid in roots or isinstance(child, StubElement):", 'expect': 'C14.X11'},
     {'id': 'ok_kv2_array_null_by_identity', 'file': 'dmx.py', 'find': "                        if child.is_null:\n                            file.write(b'\"element\" \"\"')\n                        elif child.uuid in roots or child.is_stub:", 'replace': "                        if child is NULL:\n                            file.write(b'\"element\" \"\"')\n                        elif isinstance(child, StubElement) or child.uuid in roots:", 'expect': None},
     {'id': 'vec4_text_six_significant_digits', 'file': 'dmx.py', 'find': "    return f'{_fmt_float(v.x)} {_fmt_float(v.y)} {_fmt_float(v.z)} {_fmt_float(v.w)}'", 'replace': "    return f'{v.x:.6g} {v.y:.6g} {v.z:.6g} {v.w:.6g}'", 'expect': 'C14.X10'},
